@@ -121,6 +121,13 @@ def strings(tier, seed):
             else:
                 s.insert(i, rnd.choice("0123456789.-+eE, "))
         feed("".join(s))
+    # long conforming strings: the grammar puts no limit on the number of values, glued together or not (a parser must not run
+    # out of stack or time on them)
+    for n_vals in (300, 1500, 4000):
+        feed("M0 0h" + "-1" * n_vals)
+        feed("m5 5l" + "-1-.5" * (n_vals // 2))
+        feed("M" + " ".join(str(i % 7) for i in range(2 * n_vals)))
+        feed("M0,0" + "l1,1" * n_vals + "z")
     res.distinct_nontrivial = conforming
     res.samples = [dict(string="M007,5", grammar="[('M', (7.0, 5.0))]"), dict(string="M.5.5-1e1", grammar="[('M', (0.5, 0.5)), ('L'...)] or rejected")]
     return res
@@ -133,6 +140,22 @@ def round_trip(tier, seed):
     res = ComponentResult()
     rnd = random.Random(seed)
     n = 3000 if tier == "quick" else 60000
+    # commands that carry several argument sets (implicit repeats; an m / M followed by implicit linetos) as parse_svg_path(s,
+    # exploded=False) yields them: from_commands must print them so that they parse back to the same exploded sequence
+    from picosvg.svg_path_iter import parse_svg_path
+
+    for src in ("m10 10 5 0 0 5", "M10 10 5 0 0 5", "m1 2 3 4 5 6 7 8z m1 1 2 2", "l1 1 2 2 3 3", "M0 0 c1 1 2 2 3 3 4 4 5 5 6 6", "M0 0 h1 2 3 v4 5", "M0 0 a1 1 0 0 1 2 2 1 1 0 1 0 3 3", "m0 0 t1 1 2 2 s1 1 2 2 3 3 4 4", "M1 1 q1 2 3 4 5 6 7 8"):
+        res.evaluations += 1
+        want = [(c, tuple(a)) for c, a in parse_svg_path(src, exploded=True)]
+        try:
+            printed = SVGPath.from_commands(parse_svg_path(src, exploded=False)).d
+            back = [(c, tuple(a)) for c, a in parse_svg_path(printed, exploded=True)]
+        except Exception as e:  # noqa
+            res.findings.append(Finding(key="grammar.round_trip:raises", text=f"printing the unexploded commands of {src!r} raised {type(e).__name__}: {e}", replay=dict(source=src), confirmed=True))
+            break
+        if back != want:
+            res.findings.append(Finding(key="grammar.round_trip:unexploded-differs", text=f"{src!r} means {want}; its unexploded commands print as {printed!r}, which means {back}", replay=dict(source=src), confirmed=True))
+            break
     res.bound = f"{n} command sequences with random finite doubles (random bit patterns, subnormal, huge, negative zero, integers, short decimals)"
     res.rule = "list(SVGPath.from_commands(cmds)) == cmds with ==-equal arguments; distinct = distinct sequences"
 
